@@ -592,6 +592,7 @@ func init() {
 	reg(&propDef{id: "C12", level: "exploration", crashIsViol: true, memKB: 8 << 20,
 		batches: []batch{{name: "fields", quick: 3000, thorough: 120000},
 			{name: "relayhs", params: map[string]string{"relayhs": "1"}, quick: 1200, thorough: 40000},
+			{name: "resume", params: map[string]string{"resume": "1"}, quick: 800, thorough: 30000},
 			{name: "archive", params: map[string]string{"mode": "archive"}, quick: 1500, thorough: 60000},
 			{name: "terminal", params: map[string]string{"mode": "terminal"}, quick: 1200, thorough: 40000}},
 		rule:    "each evaluation is one simulated transfer in which a link rewriter replaces the payload of 1-3 tape-chosen protocol lines sent to the attacked role (server or client) by boundary values: numbers (-1, 0, +-1 of the expected, 2^31, 2^62, 2^63-1, non-numeric, oversized), broken base64/zlib, truncated or wrongly typed JSON, hostile known fields; with and without a progress display, terminal widths 6-80; oracles: no panic/fatal error in any goroutine (a crash of the worker process is attributed to the run and re-executed), allocation during the run <= 64 MiB + 16 x bytes moved, both roles end, no percentage outside 0..100 on the terminal, and a transparency probe in both directions passes afterwards; batch archive: hostile archive entry headers written to the real archive writer in tape-chosen segments; batch terminal: hostile terminal output in front of the idle client with the read boundary at tape-chosen or at every position; non-trivial = an edit fired (a hostile entry / read was fed) and all oracles ran; distinct = distinct (configuration + attacked role, schedule-trace hash, tape hash)"})
@@ -1429,6 +1430,11 @@ func doReplay(pl *pool, pd *propDef, path string, findings *findingsFile) int {
 	fmt.Printf("replay %s: class=%s kind=%s sig=%s steps=%d trace=%s\n%s\n", path, r.Class, r.Kind, r.Sig, r.Steps, r.TraceHash, r.Msg)
 	for _, d := range r.Detail {
 		fmt.Println("  ", d)
+	}
+	if len(r.Scenario) > 0 {
+		if b, err := json.Marshal(r.Scenario); err == nil {
+			fmt.Printf("scenario: %s\n", b)
+		}
 	}
 	if r.Class == "violation" || (r.Class == "crash" && (pd.crashIsViol || rep.Class == "crash")) {
 		if k := findings.match(pd.id, r.Sig); k != nil {
